@@ -161,14 +161,77 @@ def parse_trace_output(path):
 
 
 # ----------------------------------------------------------------------------------------------- harness
-def replay(scripts_path, trace_path, timeout=3600):
+CRASH_CODES = {-6: 'SIGABRT', -11: 'SIGSEGV', -4: 'SIGILL', -7: 'SIGBUS', -8: 'SIGFPE', 134: 'SIGABRT', 139: 'SIGSEGV', 132: 'SIGILL'}
+
+
+def _run_harness(scripts_path, trace_path, timeout):
     try:
-        p = subprocess.run([CONFORM, 'replay', scripts_path, trace_path], stdout=subprocess.PIPE,
-                           stderr=subprocess.PIPE, text=True, timeout=timeout)
+        return subprocess.run([CONFORM, 'replay', scripts_path, trace_path], stdout=subprocess.PIPE,
+                              stderr=subprocess.PIPE, text=True, timeout=timeout)
     except subprocess.TimeoutExpired:
         raise ToolError('harness replay timed out (hang in code under test?)')
-    if p.returncode != 0:
-        raise ToolError('harness failed: ' + p.stderr[-2000:])
+
+
+def replay(scripts_path, trace_path, timeout=3600):
+    """Replays the scripts on the real crate. Returns the list of scripts on which the code under test took the whole process down
+    (abort inside a no-unwind section, stack overflow, ...): a panic is caught and recorded by the harness, a process abort cannot be,
+    so the script is isolated here (the harness flushes after every script), confirmed by running it alone, and reported as data."""
+    p = _run_harness(scripts_path, trace_path, timeout)
+    if p.returncode == 0:
+        return []
+    if p.returncode not in CRASH_CODES:
+        raise ToolError('harness failed (exit %s): %s' % (p.returncode, p.stderr[-2000:]))
+    scripts = [json.loads(l) for l in open(scripts_path) if l.strip()]
+    crashes = []
+    done_upto = 0            # scripts[:done_upto] are finished (events in trace_path)
+    part = trace_path + '.part'
+    os.replace(trace_path, part)
+    with open(trace_path, 'w') as out:
+        while True:
+            # events of the scripts that completed before the crash; the crashing script is the first one without a complete record
+            last_sc = None
+            with open(part) as f:
+                lines = f.readlines()
+            complete = [l for l in lines if l.endswith('\n')]
+            seen = []
+            for l in complete:
+                try:
+                    seen.append(json.loads(l).get('sc'))
+                except Exception:
+                    pass
+            ids = [s_.get('sc') for s_ in scripts[done_upto:]]
+            # index (within the remaining scripts) of the crashing one: the script after the last one that has events, scanning in order
+            k = 0
+            seen_set = set(seen)
+            while k < len(ids) and ids[k] in seen_set:
+                k += 1
+            # events of a half-written crashing script are dropped
+            keep = [l for l in complete if json.loads(l).get('sc') in set(ids[:k])]
+            out.writelines(keep)
+            if p.returncode == 0:
+                break
+            if k >= len(ids):
+                raise ToolError('harness crashed (%s) after the last script' % CRASH_CODES.get(p.returncode, p.returncode))
+            bad = scripts[done_upto + k]
+            # confirm: the script alone must crash again
+            one = trace_path + '.one.ndjson'
+            with open(one, 'w') as f:
+                f.write(json.dumps(bad) + '\n')
+            p1 = _run_harness(one, one + '.trace', timeout)
+            if p1.returncode not in CRASH_CODES:
+                raise ToolError('harness crashed (%s) on script %s but not when it is run alone' % (CRASH_CODES.get(p.returncode), bad.get('sc')))
+            crashes.append({'sc': bad.get('sc'), 'signal': CRASH_CODES[p1.returncode], 'script': bad})
+            done_upto += k + 1
+            if len(crashes) >= 40 or done_upto >= len(scripts):
+                break
+            rest = trace_path + '.rest.ndjson'
+            with open(rest, 'w') as f:
+                for s_ in scripts[done_upto:]:
+                    f.write(json.dumps(s_) + '\n')
+            p = _run_harness(rest, part, timeout)
+            if p.returncode != 0 and p.returncode not in CRASH_CODES:
+                raise ToolError('harness failed (exit %s): %s' % (p.returncode, p.stderr[-2000:]))
+    return crashes
 
 
 def split_trace(trace_path, workdir, tag, max_events):
@@ -309,7 +372,7 @@ def run_stage(stage, workdir, seed, tier, result):
         for s in scripts:
             f.write(json.dumps(s) + '\n')
     tpath = os.path.join(workdir, tag + '.trace.ndjson')
-    replay(spath, tpath)
+    crashes = replay(spath, tpath)
     verdicts, drifts, notes, events, errors = validate(stage.trace, stage.trace + '.cfg', tpath, workdir, tag,
                                                        shard_events=stage.shard_events, timeout=3600 if tier == 'quick' else 14400)
     if errors:
@@ -324,6 +387,13 @@ def run_stage(stage, workdir, seed, tier, result):
                 nt.add(canon(k))
     else:
         nt = {canon({k: v for k, v in s.items() if k != 'sc'}) for s in scripts}
+    # a script on which the code under test aborted the whole process has no post-state at all: no behaviour of the specification
+    # matches it. It is reported for the property being checked (property "*").
+    for c in crashes:
+        sc_ = c['script']
+        what = (sc_.get('op') or (sc_.get('steps') or [{}])[-1].get('op') or sc_.get('kind') or sc_.get('fam', '?'))
+        verdicts.append({'property': '*', 'sc': c['sc'], 'what': 'the code under test aborted the process (%s) instead of returning or panicking: %s' % (c['signal'], what),
+                         'sig': 'abort/%s/%s' % (sc_.get('fam', '?'), what)})
     for v in verdicts:
         v['stage'] = tag
     result['stages'].append({'stage': tag, 'mc': list(stage.mc) if stage.mc else None, 'states': states, 'transitions': trans,
@@ -458,6 +528,9 @@ def main(argv):
             for st in chk['stages'](tier):
                 run_stage(st, workdir, seed, tier, result)
         known = load_known()
+        for v in result['verdicts']:
+            if v.get('property') == '*':
+                v['property'] = pid
         mine = [v for v in result['verdicts'] if v.get('property') == pid]
         other = [v for v in result['verdicts'] if v.get('property') != pid]
         known_hits = {}
